@@ -127,8 +127,57 @@ static int shared_graph(int threads, int rounds)
    return 0;
 }
 
+// A long-lived worker thread populates Lexicons that the coordinating thread creates and destroys in ONE reused storage slot (a
+// compile server: one job after the other).  Whatever a job interns is read back by the worker; nothing of a destroyed Lexicon may
+// reach the next one.  (argv[1] == "handover"; run under AddressSanitizer)
+#include <mutex>
+#include <condition_variable>
+#include <optional>
+static int handover(int jobs)
+{
+   std::optional<impl::Lexicon> slot;
+   std::mutex m; std::condition_variable cv;
+   int stage = 0;                 // even: the coordinator's turn, odd: the worker's turn; -1: stop
+   long wrong = 0, done = 0;
+   std::thread worker([&] {
+      for (int job = 0;; ++job) {
+         std::unique_lock<std::mutex> lk(m);
+         cv.wait(lk, [&] { return stage == -1 or stage % 2 == 1; });
+         if (stage == -1) return;
+         impl::Lexicon& lex = *slot;
+         for (int round = 0; round < 3; ++round)
+            for (int i = 0; i < 40; ++i) {
+               std::u8string w = u8"widget"; w += char8_t('a' + i % 26); w += char8_t('0' + job % 10);
+               auto& id = lex.get_identifier(w);
+               auto& again = lex.get_string(w);
+               auto chars = id.string().characters();
+               if (chars != util::word_view(w) or &again != &id.string() or again.characters() != util::word_view(w)) ++wrong;
+               (void) lex.get_pointer(lex.int_type());
+            }
+         ++done;
+         ++stage;
+         cv.notify_all();
+      }
+   });
+   for (int job = 0; job < jobs; ++job) {
+      std::unique_lock<std::mutex> lk(m);
+      slot.reset();                // the previous job's Lexicon dies on THIS thread ...
+      slot.emplace();              // ... and the next one is built in the same storage
+      ++stage;
+      cv.notify_all();
+      cv.wait(lk, [&] { return stage % 2 == 0; });
+   }
+   { std::lock_guard<std::mutex> lk(m); stage = -1; }
+   cv.notify_all();
+   worker.join();
+   slot.reset();
+   std::printf("handover jobs=%d done=%ld wrong=%ld\n", jobs, done, wrong);
+   return 0;
+}
+
 int main(int argc, char** argv)
 {
+   if (argc > 1 and std::string(argv[1]) == "handover") return handover(argc > 2 ? std::atoi(argv[2]) : 6);
    if (argc > 1 and std::string(argv[1]) == "shared")
       return shared_graph(argc > 2 ? std::atoi(argv[2]) : 4, argc > 3 ? std::atoi(argv[3]) : 3);
    int threads = argc > 1 ? std::atoi(argv[1]) : 4;
